@@ -85,7 +85,12 @@ def run_pq_online(PriorityQueue, rng, n_ops, n_items, score_gen):
             ops.append(["len"])
         else:
             ops.append(["empty"])
-        o, f, nt = apply_impl(q, spec, ops[-1])
+        try:
+            o, f, nt = apply_impl(q, spec, ops[-1])
+        except Exception as e:     # no operation of a valid history may raise anything but the IndexError of an empty pop
+            fails.append(f"{ops[-1][0]} raised {type(e).__name__}: {str(e)[:100]} on a valid history")
+            outs.append("exception:" + type(e).__name__)
+            return ops, outs, fails, True
         outs.append(o); fails += f; nontrivial |= nt
     return ops, outs, fails, nontrivial
 
